@@ -231,49 +231,13 @@ func allInt(args []*Term) bool {
 func simplify(op string, sort *Sort, a []*Term) *Term {
 	switch op {
 	case "+":
-		// flatten constants
-		sum := new(big.Int)
-		var rest []*Term
-		for _, x := range a {
-			if x.IsInt() {
-				sum.Add(sum, x.Int)
-			} else if x.Op == "+" {
-				for _, y := range x.Args {
-					if y.IsInt() {
-						sum.Add(sum, y.Int)
-					} else {
-						rest = append(rest, y)
-					}
-				}
-			} else {
-				rest = append(rest, x)
-			}
-		}
-		if len(rest) == 0 {
-			return BigLit(sum)
-		}
-		if sum.Sign() != 0 {
-			rest = append(rest, BigLit(sum))
-		}
-		if len(rest) == 1 {
-			return rest[0]
-		}
-		return intern(&Term{Op: "+", Args: rest, Sort: SInt})
+		return linNorm(a, nil)
 	case "-":
 		if len(a) == 1 {
-			if a[0].IsInt() {
-				return BigLit(new(big.Int).Neg(a[0].Int))
-			}
-			return nil
+			return linNorm(nil, a)
 		}
 		if len(a) == 2 {
-			if a[1].IsInt() {
-				return App("+", SInt, a[0], BigLit(new(big.Int).Neg(a[1].Int)))
-			}
-			if a[0] == a[1] {
-				return Zero
-			}
-			// (x + c) - y keep
+			return linNorm(a[:1], a[1:])
 		}
 		return nil
 	case "*":
@@ -291,6 +255,18 @@ func simplify(op string, sort *Sort, a []*Term) *Term {
 				}
 				if a[i].IsInt() && a[i].Int.Cmp(big.NewInt(1)) == 0 {
 					return a[1-i]
+				}
+			}
+			// literal * linear term: distribute so that sums stay in normal form
+			for i := 0; i < 2; i++ {
+				if a[i].IsInt() {
+					o := a[1-i]
+					if o.Op == "+" || (o.Op == "*" && len(o.Args) == 2 && o.Args[0].IsInt()) {
+						return linScale(a[i].Int, o)
+					}
+					if i == 1 {
+						return intern(&Term{Op: "*", Args: []*Term{a[1], a[0]}, Sort: SInt})
+					}
 				}
 			}
 		}
@@ -821,4 +797,82 @@ func mentions(t *Term, vs map[*Term]bool, cache map[*Term]bool) bool {
 	}
 	cache[t] = r
 	return r
+}
+
+// ---------- linear normal form for sums ----------
+
+// linAdd accumulates c*t into the coefficient map (t non-literal), keeping first-seen order.
+type linAcc struct {
+	coef  map[*Term]*big.Int
+	order []*Term
+	k     *big.Int
+}
+
+func (l *linAcc) add(c *big.Int, t *Term) {
+	switch {
+	case t.IsInt():
+		l.k.Add(l.k, new(big.Int).Mul(c, t.Int))
+	case t.Op == "+":
+		for _, x := range t.Args {
+			l.add(c, x)
+		}
+	case t.Op == "*" && len(t.Args) == 2 && t.Args[0].IsInt():
+		l.add(new(big.Int).Mul(c, t.Args[0].Int), t.Args[1])
+	case t.Op == "-" && len(t.Args) == 2:
+		l.add(c, t.Args[0])
+		l.add(new(big.Int).Neg(c), t.Args[1])
+	case t.Op == "-" && len(t.Args) == 1:
+		l.add(new(big.Int).Neg(c), t.Args[0])
+	default:
+		if old, ok := l.coef[t]; ok {
+			old.Add(old, c)
+		} else {
+			l.coef[t] = new(big.Int).Set(c)
+			l.order = append(l.order, t)
+		}
+	}
+}
+
+func (l *linAcc) build() *Term {
+	var parts []*Term
+	for _, t := range l.order {
+		c := l.coef[t]
+		if c.Sign() == 0 {
+			continue
+		}
+		if c.Cmp(big.NewInt(1)) == 0 {
+			parts = append(parts, t)
+		} else {
+			parts = append(parts, intern(&Term{Op: "*", Args: []*Term{BigLit(c), t}, Sort: SInt}))
+		}
+	}
+	if len(parts) == 0 {
+		return BigLit(l.k)
+	}
+	if l.k.Sign() != 0 {
+		parts = append(parts, BigLit(l.k))
+	}
+	if len(parts) == 1 {
+		return parts[0]
+	}
+	return intern(&Term{Op: "+", Args: parts, Sort: SInt})
+}
+
+func linNorm(pos, neg []*Term) *Term {
+	l := &linAcc{coef: map[*Term]*big.Int{}, k: new(big.Int)}
+	one := big.NewInt(1)
+	mone := big.NewInt(-1)
+	for _, t := range pos {
+		l.add(one, t)
+	}
+	for _, t := range neg {
+		l.add(mone, t)
+	}
+	return l.build()
+}
+
+func linScale(c *big.Int, t *Term) *Term {
+	l := &linAcc{coef: map[*Term]*big.Int{}, k: new(big.Int)}
+	l.add(c, t)
+	return l.build()
 }
